@@ -81,7 +81,8 @@ func (k *KnownFinding) matches(v *Violation) bool {
 	if k.Status != "known" {
 		return false
 	}
-	if k.Harness != v.Harness || k.Assert != v.AssertID {
+	// the harness name is matched as a prefix: ZZ_C18_SharedFail is ZZ_C18_Shared with node failures
+	if !strings.HasPrefix(v.Harness, k.Harness) || k.Assert != v.AssertID {
 		return false
 	}
 	if k.Pos != "" && !strings.Contains(v.Pos, k.Pos) {
